@@ -100,6 +100,12 @@ def _block(b, box=None):
                                                 models.Polynomial2D(1, c0_0=b["c"][2], c1_0=b["c"][1], c0_1=1.0) &
                                                 models.Polynomial1D(2, c0=b["c"][0], c1=b["c"][1], c2=b["c"][2]))
         return t, 3, [("generic", "m"), ("generic", "m"), ("spectral", "um")]
+    if k == "chain4":     # a <- (x0, x1), b <- (x1, x2), c <- (x2, x3), d <- (x3): one group, closed only after three rounds of merging
+        t = models.Mapping((0, 1, 1, 2, 2, 3, 3)) | (models.Polynomial2D(1, c0_0=b["c"][0], c1_0=1.0, c0_1=b["c"][1]) &
+                                                      models.Polynomial2D(1, c0_0=b["c"][2], c1_0=b["c"][1], c0_1=1.0) &
+                                                      models.Polynomial2D(1, c0_0=b["c"][1], c1_0=1.0, c0_1=b["c"][2]) &
+                                                      models.Polynomial1D(1, c0=b["c"][0], c1=b["c"][1]))
+        return t, 4, [("generic", "m"), ("generic", "m"), ("generic", "m"), ("spectral", "um")]
     if k == "collapse":   # 2 pixel axes -> 1 world axis: more pixel than world axes
         return models.Polynomial2D(1, c0_0=1.0, c1_0=0.5, c0_1=0.25), 2, [("spectral", "um")]
     raise ValueError(k)
@@ -207,6 +213,13 @@ def impl(case):
     res["bb"] = bb
     samp = [float(sampling)] * npx if isinstance(sampling, (int, float)) else [float(x) for x in sampling]
     res["expect_npix"] = [_npix(lo, hi, s) for (lo, hi), s in zip(bb, samp)]
+    # a header that names an axis twice or counts more axes than the WCS has is not handed to the C reader (wcslib may abort on it)
+    nw_ = w.world_n_dim
+    dup = [k for k in set(hdr.keys()) if k not in ("COMMENT", "HISTORY", "") and list(hdr.keys()).count(k) > 1]
+    if dup or (not case.get("expect") and (int(hdr.get("WCSAXES", nw_)) > max(nw_, npx) or len(tabs) > len(res["components"]))):
+        res["reader_err"] = "malformed header: duplicate cards %s, WCSAXES %s for %d world axes, %d tables for %d coupled groups" % (
+            sorted(dup)[:4], hdr.get("WCSAXES"), nw_, len(tabs), len(res["components"]))
+        return res
     # the standard reader
     try:
         hdul = fits.HDUList([fits.PrimaryHDU(np.zeros((2,) * npx), hdr)] + list(tabs))
@@ -548,6 +561,11 @@ def gen(rng, tier):
                 blocks, npx, nw = [dict(skyb, dist=rng.choice([1.0, 2.0])), {"kind": "spec", "c": cc}], 3, 3
             case = {"blocks": blocks, "method": "mixed"}
             crossed = True      # (keeps the world axes in their natural order)
+        if it % 20 == 7:
+            # four pixel axes coupled in a chain, in one of the orders the sets can be met in
+            blocks, npx, nw = [{"kind": "chain4", "c": [float(rng.randint(1, 9)), rng.choice([0.5, 0.25, 1.5]), rng.choice([0.03125, 0.0625, 0.125])]}], 4, 4
+            case = {"blocks": blocks, "method": rng.choice(["tab", "mixed"])}
+            crossed = False
         if nw < npx:
             case.update(expect="runtimeErr", why="more pixel than world axes")
         # permutation of world axes: celestial lon/lat keep their relative order
